@@ -4,6 +4,7 @@ import (
 	"encoding/json"
 	"fmt"
 	"strings"
+	"sync"
 	"testing"
 
 	"pgregory.net/rapid"
@@ -233,4 +234,48 @@ func TestC13_Histories(t *testing.T) {
 		judge(rt, "c13.history", c13Check, c)
 	})
 	_ = gen.Lang
+}
+
+// c13.idle: wall-clock time is history too. A fresh process uses every language through every
+// entry point, makes no call for a while, and uses them again (tables released by idle timers,
+// caches that expire). Thorough tier only: the idle periods are 65 s and 200 s.
+var c13IdleCheck = register("C13", "c13.idle", coldCheck("C13"))
+
+func TestC13_Idle(t *testing.T) {
+	cov.Rule(c13Rule + " || (c) idle time: fresh processes that use all ten languages through every entry point, make no call for 65 s / 200 s, and use them again (thorough tier only)")
+	idles := []int64{65, 200}
+	var wg sync.WaitGroup
+	errs := make([]error, len(idles))
+	cases := make([]*coldCase, len(idles))
+	for i, idle := range idles {
+		var before, after []op
+		for _, l := range allLangs() {
+			il := int64(implLang[l])
+			e := tableEntropiesSmall(int(l) + 40*i)
+			sent := ref.Encode(e, l)
+			round := []op{
+				{Kind: "check", Lang: il, Text: text(sent)},
+				{Kind: "encode", Lang: il, Entropy: e},
+				{Kind: "valid", Lang: il, Text: text(sent + " zzzz")},
+				{Kind: "string", Lang: il},
+				{Kind: "new", Lang: il, N: 12},
+				{Kind: "seed", Text: text(sent), Pass: "TREZOR"},
+			}
+			before = append(before, round...)
+			after = append(after, round...)
+		}
+		cases[i] = &coldCase{History: append(before, op{Kind: "sleep", N: idle}), Probe: after}
+		wg.Add(1)
+		go func(i int) {
+			defer wg.Done()
+			errs[i] = c13IdleCheck(cases[i])
+		}(i)
+	}
+	wg.Wait()
+	for i := range cases {
+		cov.Eval(len(cases[i].History) + len(cases[i].Probe))
+		cov.Class("idle-period")
+		cov.NonTrivial("c13.idle", []byte{byte(i)})
+		judge(t, "c13.idle", func(*coldCase) error { return errs[i] }, cases[i])
+	}
 }
